@@ -195,7 +195,12 @@ def check_case(ctx, kind, v, frames_list, model_tbls, obj=None, came_from=None):
     n = len(frames_list[0])
     k = A.NCOMP[kind]
     try:
-        obj = A.build(kind, v) if obj is None else obj
+        if obj is None:
+            # where the arrays come from must not matter: half of the blocks are built from big-endian, Fortran-ordered
+            # (e.g. a transposed (k, n) table), strided or read-only arrays holding the same values
+            prov = ctx.rng.choice([None, None, None, None] + A.PROVENANCES)
+            rep["array_provenance"] = prov
+            obj = A.build(kind, v, prov=prov)
         enc = A.encode(obj)
         tbls = parse_tables(kind, enc, len(frames_list))
     except Exception as e:
@@ -285,7 +290,8 @@ def run(ctx):
         ctx.case((kind, "transition", tuple(masks1), tuple(tuple(f is not None for f in fr) for fr in fl2)), nontrivial=True,
                  tags=(kind, "in-place-transition", "n<=4" if len(fl1[0]) <= 4 else "n-large"))
         try:
-            obj = A.build(kind, v1)
+            prov = rng.choice([None, None, None, "be", "fortran", "strided"])
+            obj = A.build(kind, v1, prov=prov)
             repr(obj), [repr(it) for it, _ in B.items_of(kind, obj)], int(obj.nBytes), A.encode(obj)
             morph(kind, obj, fl2)
         except Exception as e:
